@@ -65,6 +65,11 @@ CHECKS = {
                 text='Partial (stated): on one symbolic cell per shape the real SymbolicAssembler / BilinearOperatorAssembler / LinearFunctionalAssembler / DomainAssembler jobs are executed; z3 decides classic == job route, Laplace row sums = 0, symmetry, sum of mass entries = sum_q w_q detJ(x_q), alpha-scaled repeated assembly, and for Lagrange1 that every entry equals an independent cubature sum of the textbook integrand. "Equals the integral" = this identity composed with C14 (rule exactness).',
                 note='Trusted: SymReal, z3 5.1.0, hand-written reference P1/Q1 basis + adjugate Jacobian inverse in the oracle. Several rational-function identities on general cells time out in the quick tier (inconclusive, listed). Outside: multi-cell scatter, voxel assemblers (float/double instantiations only), Burgers/defo assemblers, threaded routes (C17): the two seeded changes for C16 (voxel Poisson kernel, Burgers SD term) are NOT detected.',
                 ref='3/C16'),
+    'C18': dict(cat='other', engine='E2',
+                technique='bounded symbolic execution of the real refinery + GridTransfer assembly on one coarse simplex from a 1-3 parameter symbolic affine family; z3 decides interpolation-matrix, transpose and matrix-free identities',
+                text='Partial, restricted (stated): one coarse triangle (thorough: tetrahedron) refined by the real StandardRefinery; Lagrange1 / Discontinuous P0,P1 (thorough: Lagrange2): prolongation rows sum to 1, Lagrange1 entries equal the coarse basis values at fine nodes, restriction = transpose, LAFEM::Transfer prol/rest/trunc and matrix-free prolongation equal the assembled matrices for all vectors.',
+                note='Trusted: SymReal, z3 5.1.0. Pivoted symbolic inversion limits the geometry to <= 3 free parameters; T*P = I is only true up to the rounding of the cubature tables and is not claimed. Outside: quadrilaterals/hexahedra, general vertices, permuted meshes, multi-level / global / muxed transfer.',
+                ref='3/C18'),
     'C19': dict(cat='model_checking', engine='E3',
                 technique='own symbolic executor over the clang-14 LLVM IR of the real adjacency sources (z3 bit-vectors, region memory, path forking); set/multiset oracles decided by z3 per path; memory safety and leak checks by the executor',
                 text='For every shape profile in the bound (domain/image sizes, degree sequence) all index values, permutation entries and orders are symbolic 64-bit values; the real Graph render (all 8 types, single and composite), sort, degree, permuted copy, Permutation (all representations, apply, inverse, concat), Coloring (+partition graph) and CuthillMcKee (all root/sort/reverse options) code is executed symbolically on every feasible path; each access is bounds/liveness checked, heap must be freed, and z3 decides the definition of the operation.',
